@@ -297,9 +297,10 @@ func (i *Inst) runFraming(f *FrScript, rng *rand.Rand, segmented bool) (stream [
 	// (the packet loop is gone, so the gateway has closed that connection or is about to)
 	if beA.NConns() > hostConns0 {
 		bc := beA.Conn(hostConns0)
-		bc.WaitClosed(5 * time.Second)
+		// (generous limits: they are reached only when something is wrong - or the machine is very busy)
+		bc.WaitClosed(20 * time.Second)
 		if fwd > 0 {
-			bc.WaitRecv(fwd, time.Second)
+			bc.WaitRecv(fwd, 10*time.Second)
 		}
 		res.backend = len(bc.Bytes())
 	}
